@@ -26,9 +26,20 @@ def run_property(prop, tier, repo, seed):
     prog = load_program(repo)
     ctx = Ctx(prop, tier, prog, seed)
     mod = importlib.import_module('nvstat.props.' + prop)
-    mod.run(ctx)
+    try:
+        mod.run(ctx)
+    except AnalysisError as exc:
+        # a rule could not be carried out; obligations already evaluated stay valid
+        if not ctx.failures():
+            raise
+        ctx.note('analysis incomplete: %s' % exc)
+        print('NOTE property=%s analysis incomplete (%s); reporting the violations found so far'
+              % (prop, exc))
+        return finish(ctx, mod.LEVEL_TEXT)
     if not ctx.obligations:
         raise AnalysisError('no obligation was generated for %s' % prop)
+    if ctx.floor_failures and not ctx.failures():
+        raise AnalysisError('; '.join(ctx.floor_failures))
     if tier == 'thorough':
         try:
             from nvstat import thorough
